@@ -38,6 +38,20 @@ def _scenario(sym, mode_note=""):
     # with an injection or a user command the second line group is fixed by the shard (keeps the shard exhaustible)
     b = sym.shard["second"] if sym.shard.get("second") is not None else sym.index("lb", len(CATALOGUE))
     pcode = CATALOGUE[a] + "\n" + CATALOGUE[b] + "\n"
+    if sym.shard.get("gen"):
+        # a method assembled by solver selectors (props/gen_methods.py) with catalogue entry `a` inserted before a solver-chosen line,
+        # at that line's indentation (so the odd line also lands inside blocks and Watch bodies)
+        from props.gen_methods import generate, Infeasible
+        g = sym.shard["gen"]
+        try:
+            base = generate(sym, g["slots"], g["body"], g.get("watch", False), False, g.get("first"), g.get("blocks", 2), tuple(g.get("pre", ())))
+        except Infeasible:
+            sym.assume(False)
+        rows = base.rstrip("\n").split("\n")
+        pos = sym.index("insert_before", len(rows))
+        ind = rows[pos][:len(rows[pos]) - len(rows[pos].lstrip(" "))]
+        bad = [ind + r for r in CATALOGUE[a].split("\n")]
+        pcode = "\n".join(rows[:pos] + bad + rows[pos:]) + "\n"
     if sym.shard.get("three"):
         c = sym.index("lc", len(CATALOGUE))
         pcode += CATALOGUE[c] + "\n"
@@ -143,6 +157,14 @@ def _shards(tier):
     if tier != "quick":
         for a in range(0, n, 4):
             out.append({"first": a, "three": True})
+    # odd lines inside generated methods (blocks, Watch bodies)
+    gens = [{"slots": 2, "body": 2, "blocks": 1, "first": "block", "watch": False}] if tier == "quick" else \
+           [{"slots": 2, "body": 2, "blocks": 2, "first": "block", "watch": True}, {"slots": 2, "body": 2, "blocks": 1, "first": "watch", "watch": True}]
+    firsts = [1, 5, 12, 23] if tier == "quick" else [i for i in range(n) if "\n" not in CATALOGUE[i] or CATALOGUE[i].startswith(("Watch", "Block"))]
+    for g in gens:
+        for a in firsts:
+            for p0 in range(7):
+                out.append({"first": a, "second": 0, "gen": dict(g, pre=[p0])})
     return out
 
 
@@ -176,8 +198,8 @@ OBLIGATIONS = [
                         "openpectus.engine.engine:Engine.inject_code", "openpectus.lang.exec.pinterpreter:PInterpreter.tick",
                         "openpectus.engine.command_manager:CommandManager.tick"],
                symbolic="selectors over the line-group catalogue for each method line and the injected snippet; tick of the user command / injection",
-               bounds={"quick": "2-line-group methods over a 45-entry catalogue (all pairs), + {Pause, Stop} at ticks 2..8 and injections for a subset of first lines; 12 ticks then Stop, corrected method, 6 ticks",
-                       "thorough": "all 7 control commands for every first line, injections for every second first line, 3-group methods for every fourth"},
+               bounds={"quick": "4 catalogue entries (unknown instruction, Watch on an unknown tag, bad unit, stray indentation) inserted at every line position of solver-assembled methods with a block (props/gen_methods.py); 2-line-group methods over a 45-entry catalogue (all pairs), + {Pause, Stop} at ticks 2..8 and injections for a subset of first lines; 12 ticks then Stop, corrected method, 6 ticks",
+                       "thorough": "all 7 control commands for every first line, injections for every second first line, 3-group methods for every fourth; every single-line catalogue entry inserted at every line position of the generated methods (block first / Watch first)"},
                assumptions=["the catalogue bounds 'any method text'", "hardware and UOD callbacks return values in their declared domains (fake hardware; SetOut1 raises ValueError on a non-numeric argument, which is a command failure, not a callback contract breach)",
                             "log statements removed at import in this obligation (see logging_intact)"]),
     Obligation(name="logging_intact", kind="finite", run=run_concrete, shards=_shards_concrete, decides="concrete",
